@@ -14,6 +14,7 @@ The SIDE conditions are a finding: see `FindingRectangle.lean`.
 import EPV.Lemmas.HeatRect
 import EPV.Gen.RectangleN2
 import EPV.Tactics
+import EPV.Lemmas.Bridge.HeatTac
 
 set_option linter.all false
 
@@ -103,7 +104,7 @@ theorem rectangleN2_eq (p : RectangleN2.P) (x y t : ℝ) :
   simp only [epv_tree, epv_leaf, rect, Finset.sum_range_succ, Finset.sum_range_zero, rectAnm_real, rectKn_real,
     rectKm_real, rectC]
   push_cast
-  ring_nf
+  heat_eq
 
 theorem rectangleN2_leaves : RectangleN2.okLeaves = [0] := rfl
 
